@@ -66,7 +66,8 @@ CFG = {
                       "dense_delete_refines", "sparse_set_refines", "dense_set_refines", "sparse_define_refines",
                       "dense_define_refines", "history_refines", "init_inv", "dense_delete_counters",
                       "dense_setlength_counters", "dense_set_counters", "dense_define_counters",
-                      "sparse_delete_counters", "sparse_setlength_counters", "transition_invisible",
+                      "sparse_delete_counters", "sparse_setlength_counters", "sparse_set_counters", "sparse_define_counters",
+                      "counters_history", "init_exact", "export_refines", "transition_invisible",
                       "setlength_nonconfigurable_tail", "check_sort_sound", "check_sort_array_sound"],
     "allowed_axioms": [],
     "trusted_base": [
@@ -90,7 +91,7 @@ CFG = {
                  "expand() transitions and _defineOwnProperty are transcribed as I (kept in step with the fix: commits). Proved "
                  "without axioms, for all states satisfying the storage invariant and all arguments: every operation of either "
                  "storage - reads, indexed write, define, delete, length assignment - returns S's result and denotes S's array, "
-                 "through every dense<->sparse switch, and preserves the invariant (24 theorems, no side conditions left; history_refines lifts this to all "
+                 "through every dense<->sparse switch, and preserves the invariant (29 theorems, no side conditions left; history_refines lifts this to all "
                  "histories by induction); _defineOwnProperty equals ValidateAndApplyPropertyDescriptor for every well-formed "
                  "descriptor; truncation stops at the greatest non-configurable index; the bookkeeping counters that gate the fast paths are exact; a verified validator check_sort "
                  "accepts only permutations that are sorted and stable whenever the recorded comparator is consistent. Every run "
